@@ -138,7 +138,7 @@ impl Scenario for Tl {
             } else {
                 TimeLimiterLayer::builder().timeout_fn(f).cancel_running_future(self.cancel).build()
             };
-            let svc = layer.layer(inner);
+            let svc = layer.clone().layer(inner);
             Box::new(move |req: Req| {
                 let mut s = svc.clone();
                 drive_ready::<_, Req>(&mut s, 4).expect("ready").ok();
@@ -151,7 +151,7 @@ impl Scenario for Tl {
             } else {
                 TimeLimiterLayer::builder().timeout_duration(Duration::from_millis(20 * self.scale)).cancel_running_future(self.cancel).build()
             };
-            let svc = layer.layer(inner);
+            let svc = layer.clone().layer(inner);
             Box::new(move |req: Req| {
                 let mut s = svc.clone();
                 drive_ready::<_, Req>(&mut s, 4).expect("ready").ok();
